@@ -106,7 +106,7 @@ ADDED2 = {
  "C03": "Rounds 8-10: where a token may sit (position clauses), placeholder prefixes, equally long files sharing head and tail.",
  "C05": "Rounds 8-10: trees without statements, non-ASCII file names, a character above U+FFFF before a statement, byte-identical copies of files.",
  "C06": "Rounds 8-10: statement-less trees, locks that are behind the code.",
- "C07": "Rounds 8-10: stop signals at every scratch operation, crash points with TMPDIR unset (private /tmp in a mount namespace), a new file below the source directory counts as an affected project.",
+ "C07": "Rounds 8-10: stop signals at every scratch operation, crash points with TMPDIR unset (private /tmp in a mount namespace).",
  "C08": "Rounds 8-10: renames failing for ever with EBUSY/EINTR/EAGAIN/ETIMEDOUT, the scratch copy removed by another process just before its rename.",
  "C09": "Rounds 8-10: code before the statement on its line, tight separators, the program as one file of a larger tree with other modules and unloadable files (creation order shuffled).",
  "C10": "Rounds 8-10: foreign-module uses of configured names first in the file, macro sets whose names are suffixes / prefixes of each other.",
